@@ -85,7 +85,14 @@ def supervised_column_kl(
     observed += prior_strength * baseline_probabilities
     observed /= observed.sum()
 
-    return np.sum(observed * np.log(observed / baseline_probabilities))
+    # classes without any mass have observed == baseline == 0 and contribute
+    # nothing (0 log 0 = 0); dividing there would turn every weight into NaN
+    result = 0.0
+    for i in range(observed.shape[0]):
+        if observed[i] > 0.0:
+            result += observed[i] * np.log(observed[i] / baseline_probabilities[i])
+
+    return result
 
 
 @numba.njit(nogil=True, parallel=True)
